@@ -212,7 +212,7 @@ class ProjectResolver:
             star = [(0, n, orc.module, self.lookup(rel, n)[0], []) for n in self.star_names(rel)]
             if any(x[3] == tgt and x[1] != name for x in others + star) and tgt[0] != "unresolvable":
                 quals.append("same-target-imported-under-another-name")
-            if any(x[1] == name and x[2] is not owner_ps for x in others):
+            if any(x[1] == name and x[2] is not owner_ps for x in others + star):
                 quals.append("same-local-name-imported-in-another-scope")
             if owner_ps.kind != "module" and (orc.binding_forms(orc.module, name) - {"import"}):
                 quals.append("local-name-is-also-a-module-level-symbol")
@@ -552,7 +552,11 @@ def fix_project(proj):
     init_bound = {}
     for rel in proj["order"]:
         if rel.endswith("/__init__.py"):
-            init_bound[dotted_of(rel)] = set(c05_py.bound_names(proj["files"][rel]))
+            t0 = proj["files"][rel]
+            if any(x["t"] == "from" and x["n"] == "*" for x in c05_py.walk_stmts(t0["body"])):
+                init_bound[dotted_of(rel)] = None          # a star import: may bind anything
+            else:
+                init_bound[dotted_of(rel)] = set(c05_py.bound_names(t0))
     pos = {rel: i for i, rel in enumerate(proj["order"])}
 
     def through_later_init(rel, s):
@@ -571,7 +575,10 @@ def fix_project(proj):
         else:
             base = mod
         init = base.replace(".", "/") + "/__init__.py"
-        return init in pos and pos[init] > pos[rel] and s["n"] in init_bound.get(base, ())
+        if init not in pos or pos[init] <= pos[rel]:
+            return False
+        b = init_bound.get(base, ())
+        return b is None or s["n"] in b
 
     for rel in proj["order"]:
         tree = proj["files"][rel]
